@@ -16,7 +16,10 @@ Inductive case :=
          (validates same_bytes : bool) (reopened : option json)
 (* json.Unmarshal of an arbitrary JSON text (nulls, repeated / unknown / reordered keys) into a nil
    *T for a struct T of the environment; None = it returned an error *)
-| CDecode (root : bytes) (j : json) (impl : option value).
+| CDecode (root : bytes) (j : json) (impl : option value)
+(* what the constructor of T builds (NewIndexMapping(), NewDocumentMapping(), &FieldMapping{}) and
+   what decoding "{}" into a nil *T gives: an absent key must mean the constructor's default *)
+| CDefault (root : bytes) (ctor decoded : option value).
 
 Definition check (c : case) : bool :=
   match c with
@@ -35,6 +38,9 @@ Definition check (c : case) : bool :=
       && match reop with None => true | Some j' => json_eqb j' j end
   | CDecode root j impl =>
       option_eqb value_eqb (dval mapping_env mapping_strict case_fuel (KPtrS root) VNil j) impl
+  | CDefault root ctor decoded =>
+      option_eqb value_eqb ctor decoded
+      && option_eqb value_eqb (dval mapping_env mapping_strict case_fuel (KPtrS root) VNil (JObj [])) decoded
   end.
 
 (* ---------------------------------------------------------------- wire format of cases files
@@ -61,7 +67,8 @@ Inductive wopt_json := WJNone | WJSome (j : wjson).
 Inductive wcase :=
 | WRound (orig : wvalue) (impl_json : wjson) (reparsed : wopt_value)
          (validates same_bytes : bool) (reopened : wopt_json)
-| WDecode (root : wstr) (j : wjson) (impl : wopt_value).
+| WDecode (root : wstr) (j : wjson) (impl : wopt_value)
+| WDefault (root : wstr) (ctor decoded : wopt_value).
 
 Definition str_of (w : wstr) : bytes := match w with WS s => s2b s | WB l => l end.
 
@@ -106,6 +113,7 @@ Definition case_of_wire (w : wcase) : case :=
   | WRound m j r2 vok same reop =>
       CRound (value_of m) (json_of j) (opt_value_of r2) vok same (opt_json_of reop)
   | WDecode root j impl => CDecode (str_of root) (json_of j) (opt_value_of impl)
+  | WDefault root c d => CDefault (str_of root) (opt_value_of c) (opt_value_of d)
   end.
 
 Definition wcheck (w : wcase) : bool := check (case_of_wire w).
@@ -118,6 +126,7 @@ Definition explain (c : case) : expl :=
   match c with
   | CRound m j _ _ _ _ => ERound (wf_mapping case_fuel m) (to_json case_fuel m) (of_json case_fuel j)
   | CDecode root j _ => EDecode (dval mapping_env mapping_strict case_fuel (KPtrS root) VNil j)
+  | CDefault root _ _ => EDecode (dval mapping_env mapping_strict case_fuel (KPtrS root) VNil (JObj []))
   end.
 
 Definition wexplain (w : wcase) : expl := explain (case_of_wire w).
